@@ -21,6 +21,7 @@ inductive Res
   | num (n : Int)
   | str (u : List Nat)
   | arr (index : Option Nat) (items : List (Option (List Nat)))   -- exec result (index = some) or plain array
+  | thrown                                                         -- the call threw (the callback's own exception)
   deriving Repr, DecidableEq, Inhabited
 
 /-- the state of one RegExp object that the protocol reads and writes -/
@@ -37,6 +38,18 @@ def typeReport (strTypes : List Nat) (mt : Caps) (lastIsSubject : Bool) : List N
   let num : List Nat := [110, 117, 109, 98, 101, 114]                        -- "number"
   60 :: List.intercalate [44] ((mt.map fun o => match o with | some _ => str | none => und) ++ [num, strTypes])
     ++ 124 :: (if lastIsSubject then [116, 114, 117, 101] else [102, 97, 108, 115, 101]) ++ [62]
+
+def natTextAux : Nat → Nat → List Nat → List Nat
+  | 0, _, acc => acc
+  | f + 1, v, acc => if v < 10 then (48 + v) :: acc else natTextAux f (v / 10) ((48 + v % 10) :: acc)
+def natText (v : Nat) : List Nat := natTextAux 40 v []
+def intText (z : Int) : List Nat := if z < 0 then 45 :: natText z.natAbs else natText z.natAbs
+
+/-- the harness's rendering of a lastIndex value inside a callback: i<int> nan pinf ninf h<floor> -/
+def liText : LI → List Nat
+  | .int z => 105 :: intText z
+  | .nan => [110, 97, 110] | .pinf => [112, 105, 110, 102] | .ninf => [110, 105, 110, 102]
+  | .frac f => 104 :: intText f
 
 def slice (s : List Nat) (a b : Nat) : List Nat := (s.take b).drop a
 
@@ -60,6 +73,11 @@ inductive Step
   | replaceF                          -- String.prototype.replace(re, fixed reporting function)
   | replaceK (ret : List Nat)         -- String.prototype.replace(re, function(){ return <ret> })   (a constant function)
   | replaceT                          -- String.prototype.replace(re, type-reporting function)
+  -- function replacers that look at the regexp itself (S0 = the subject, r = the same RegExp object):
+  | replaceL                          -- returns "<" + li(r.lastIndex) + ">"
+  | replaceW (v : LI)                 -- r.lastIndex = v; returns ""
+  | replaceE                          -- m = r.exec(S0); returns "<" + (m === null ? "n" : "m" + m.index) + "@" + li(r.lastIndex) + ">"
+  | replaceX                          -- throws
   | split (limit : Option Nat)        -- limit already ToUint32'd
   | setLI (v : LI)
   deriving Repr, DecidableEq, Inhabited
